@@ -7,7 +7,7 @@ CFG = {'module': 'Dnp3.Props.C01',
          'Variations.lean',
          'Qualifiers.lean',
          'AppCodes.lean'],
- 'engines': ['rawbytes', 'parse', 'outstation', 'outstationdb', 'master', 'pairtcp'],
+ 'engines': ['rawbytes', 'parse', 'outstation', 'outstationdb', 'db', 'master', 'pairtcp'],
  'monitors': ['no_panic', 'no_stall', 'keeps_serving'],
  'rule': 'engine rawbytes (SEARCH ONLY, no Lean-model counterpart: nothing is diffed, the three monitors '
          'decide): the REAL OutstationTask (link layer, transport, parser, session, database) over an '
@@ -48,7 +48,7 @@ CFG = {'module': 'Dnp3.Props.C01',
          'fails, the user thread is never blocked, wall-clock watchdog) and reconnects_after_cut (the '
          'session that ends - cleanly in Close mode after a flipped bit, or by a cut - is followed by the '
          'next one: back-off law exact, reconnect within its delay + 6 s, start-up sequence answered on the '
-         'last connection)',
+         'last connection). engine db: operation sequences straight on the real Database (all eight point types, every event / static variation, per-type capacities, times going forwards and backwards): every operation runs under catch_unwind with overflow checks on, monitor no_panic (S103: relative-time encoding of an event older than its common time)',
  'trusted_base': ['tools/gen_panic_sites.py: token-level scanner (comments, strings, attributes, '
                   '#[cfg(test)] items stripped) listing unwrap/expect/panic-family macros/indexing/panicking '
                   'slice calls/arithmetic operators of the 21 anchor files + 25 peer-reachable helper '
@@ -96,6 +96,7 @@ CFG = {'module': 'Dnp3.Props.C01',
                'harness; the Rust is modelled, not verified; master role covered by search only (engine '
                'master: no_panic / no_spin), no master no-panic theorem',
  'engine_monitors': {'master': ['no_panic', 'no_spin'],
+                     'db': ['no_panic'],
                      'parse': ['no_panic'],
                      'outstation': ['no_panic', 'no_stall'],
                      'outstationdb': ['no_panic', 'no_stall', 'series_makes_progress'],
